@@ -84,6 +84,100 @@ fn kernel_keeps(bytes: &[u8], len: usize) -> Result<(Vec<u8>, usize), String> {
     }
 }
 
+
+thread_local! {
+    /// (real-kernel round trips, disagreements between the model and the kernel) of the running case.
+    static REAL: std::cell::Cell<(u32, u32)> = const { std::cell::Cell::new((0, 0)) };
+}
+
+/// Hand `(bytes, len)` to the real kernel (bind(2) on a fresh datagram socket
+/// of the address's family; for the unnamed Unix address: no bind at all) and
+/// return what getsockname(2) reports: the bytes and *the length the kernel
+/// itself reports*. `None` when this address cannot be bound here (not a
+/// local address, path with directories, name in use, ...).
+fn real_kernel(bytes: &[u8], len: usize) -> Option<(Vec<u8>, usize)> {
+    if len < 2 {
+        return None;
+    }
+    let family = u16::from_ne_bytes([bytes[0], bytes[1]]) as i32;
+    let mut unlink: Option<Vec<u8>> = None;
+    match family {
+        libc::AF_INET => {
+            if bytes[4] != 127 {
+                return None;
+            }
+        }
+        libc::AF_INET6 => {
+            let ip = &bytes[8..24];
+            let loopback = ip[..15].iter().all(|b| *b == 0) && ip[15] == 1;
+            let mapped = ip[..10].iter().all(|b| *b == 0) && ip[10] == 0xff && ip[11] == 0xff && ip[12] == 127;
+            if !loopback && !mapped {
+                return None;
+            }
+        }
+        libc::AF_UNIX => {
+            if len > SUN_PATH_OFFSET && bytes[SUN_PATH_OFFSET] != 0 {
+                let path = &bytes[SUN_PATH_OFFSET..len];
+                let n = path.iter().position(|b| *b == 0).unwrap_or(path.len());
+                let name = &path[..n];
+                if name.contains(&b'/') || name == b"." || name == b".." {
+                    return None;
+                }
+                unlink = Some(name.to_vec());
+            }
+        }
+        _ => return None,
+    }
+    let fd = unsafe { libc::socket(family, libc::SOCK_DGRAM | libc::SOCK_CLOEXEC, 0) };
+    if fd < 0 {
+        return None;
+    }
+    // Pathnames are bound relative to a scratch directory (the working
+    // directory is restored afterwards; worker processes are single threaded).
+    let mut back_to: Option<i32> = None;
+    if unlink.is_some() {
+        let dir = std::env::temp_dir().join(format!("a10verif-c16-{}", std::process::id()));
+        let _ = std::fs::create_dir_all(&dir);
+        let cwd = unsafe { libc::open(c".".as_ptr(), libc::O_RDONLY | libc::O_DIRECTORY | libc::O_CLOEXEC) };
+        let c = std::ffi::CString::new(dir.as_os_str().as_bytes()).ok()?;
+        if cwd < 0 || unsafe { libc::chdir(c.as_ptr()) } != 0 {
+            unsafe {
+                if cwd >= 0 {
+                    libc::close(cwd);
+                }
+                libc::close(fd);
+            }
+            return None;
+        }
+        back_to = Some(cwd);
+    }
+    let unnamed = family == libc::AF_UNIX && len == SUN_PATH_OFFSET;
+    let bound = unnamed || unsafe { libc::bind(fd, bytes.as_ptr().cast(), len as u32) } == 0;
+    let mut out = None;
+    if bound {
+        let mut buf = [0xAAu8; 128];
+        let mut rlen: u32 = 128;
+        if unsafe { libc::getsockname(fd, buf.as_mut_ptr().cast(), &mut rlen) } == 0 && (rlen as usize) <= 128 {
+            out = Some((buf[..rlen as usize].to_vec(), rlen as usize));
+        }
+    }
+    if let Some(name) = &unlink {
+        if bound {
+            if let Ok(c) = std::ffi::CString::new(name.clone()) {
+                unsafe { libc::unlink(c.as_ptr()) };
+            }
+        }
+    }
+    if let Some(cwd) = back_to {
+        unsafe {
+            libc::fchdir(cwd);
+            libc::close(cwd);
+        }
+    }
+    unsafe { libc::close(fd) };
+    out
+}
+
 fn storage_bytes<S>(s: &S) -> Vec<u8> {
     unsafe { std::slice::from_raw_parts((s as *const S).cast::<u8>(), size_of::<S>()) }.to_vec()
 }
@@ -126,6 +220,32 @@ fn round_trip<A: SocketAddress + Clone>(addr: &A, exact: Option<usize>, min_capa
     let got = back(&kept, klen)?;
     if !eq(addr, &got) {
         return Err(format!("round-trip: {} came back as {} (a10 passes {len} bytes, the kernel reports {klen})", show(addr), show(&got)));
+    }
+    // The same through the real kernel: what getsockname(2) reports, with the
+    // length it reports, must decode to the address (for IP addresses the
+    // kernel picks the port when 0 was asked for and does not keep the flow
+    // label: address and a non-zero port are compared there).
+    if let Some((rbytes, rlen)) = real_kernel(&bytes, len) {
+        let family = u16::from_ne_bytes([bytes[0], bytes[1]]) as i32;
+        let agrees = if family == libc::AF_UNIX { rlen == klen && rbytes[..rlen] == kept[..klen] } else { rlen == klen };
+        REAL.with(|c| c.set((c.get().0 + 1, c.get().1 + u32::from(!agrees))));
+        let got = back(&rbytes, rlen)?;
+        if family == libc::AF_UNIX {
+            if !eq(addr, &got) {
+                return Err(format!("round-trip-real-kernel: {} came back as {} through bind(2)/getsockname(2) (a10 passes {len} bytes, the kernel reports {rlen}: {:02x?})", show(addr), show(&got), &rbytes[..rlen.min(24)]));
+            }
+        } else {
+            // Compare through the kernel representation: family, address, port.
+            let st = got.clone().into_storage();
+            let (p2, l2) = unsafe { A::as_ptr(&st) };
+            let b2 = unsafe { std::slice::from_raw_parts(p2.cast::<u8>(), l2 as usize) };
+            let asked_port = [bytes[2], bytes[3]];
+            let same_ip = if family == libc::AF_INET { b2.len() >= 8 && b2[..2] == bytes[..2] && b2[4..8] == bytes[4..8] } else { b2.len() >= 24 && b2[..2] == bytes[..2] && b2[8..24] == bytes[8..24] };
+            let same_port = b2.len() >= 4 && (asked_port == [0, 0] || b2[2..4] == asked_port) && b2[2..4] == rbytes[2..4];
+            if !same_ip || !same_port {
+                return Err(format!("round-trip-real-kernel: {} came back as {} through bind(2)/getsockname(2) (the kernel reports {rlen} bytes: {:02x?})", show(addr), show(&got), &rbytes[..rlen.min(28)]));
+            }
+        }
     }
     if unnamed_zero {
         // recvmsg reports msg_namelen = 0 when the sender has no address.
@@ -269,6 +389,13 @@ impl Property for C16 {
             Case::UnixUnnamed => (round_trip(&UnixAddr::from_pathname("").unwrap(), None, SUN_SIZE, unix_eq, unix_show, false, true), "unix-unnamed", true),
         };
         ctx.class(class);
+        let (real, disagree) = REAL.with(|c| c.replace((0, 0)));
+        if real > 0 {
+            ctx.class("real-kernel-round-trip");
+        }
+        if disagree > 0 {
+            ctx.class("kernel-disagrees-with-length-model");
+        }
         ctx.nontrivial = nontrivial;
         ctx.fingerprint = format!("{class}|{:x}", crate::common::fnv(&format!("{case:?}")));
         if let Err(e) = res {
